@@ -102,6 +102,55 @@ def check(ctx: Ctx) -> None:
                           fn.path, ln, operand='run-site:' + role)
     _check_variations(ctx)
     _check_axis_order(ctx)
+    _check_falsy_zero(ctx)
+
+
+def falsy_zero_tests(fn: FuncInfo):
+    """Truthiness tests (`if p` / `if not p` / `p or default`) on parameters annotated Optional[<numeric or str>]:
+    they conflate the legal value 0 (or '') with None."""
+    a = fn.node.args
+    opt = set()
+    for p in a.posonlyargs + a.args + a.kwonlyargs:
+        if p.annotation is not None:
+            ann = norm(p.annotation)
+            if ('Optional[' in ann or 'None' in ann) and any(t in ann for t in ('int', 'float', 'str')) and 'bool' not in ann:
+                opt.add(p.arg)
+    if not opt:
+        return
+    # a parameter re-bound before the test is no longer the raw argument
+    rebound = {t.id for n in walk_no_nested(fn.node) if isinstance(n, ast.Assign) for t in n.targets if isinstance(t, ast.Name)}
+    for n in walk_no_nested(fn.node):
+        tests = []
+        if isinstance(n, (ast.If, ast.While, ast.IfExp)):
+            tests.append(n.test)
+        elif isinstance(n, ast.BoolOp):
+            tests.extend(n.values[:-1] if isinstance(n.op, ast.Or) else [])
+        for t in tests:
+            u = t
+            while isinstance(u, ast.UnaryOp) and isinstance(u.op, ast.Not):
+                u = u.operand
+            if isinstance(u, ast.Name) and u.id in opt and u.id not in rebound:
+                yield n, u.id
+
+
+def _check_falsy_zero(ctx: Ctx) -> None:
+    M = ctx.model
+    ctx.rule('C05.f', 'Optional index/count parameters of the runner API are tested with `is None`, never by truthiness (0 is a legal value)', floor=3)
+    for path, cname in ((RUNNER, 'SimulationRunner'), (PAR, 'SimulationParameters')):
+        cls = M.cls(cname)
+        for fn in cls.methods.values():
+            a = fn.node.args
+            anns = [norm(p.annotation) for p in a.args + a.kwonlyargs if p.annotation is not None]
+            if not any('Optional[' in x and any(t in x for t in ('int', 'float', 'str')) for x in anns):
+                continue
+            construct = fn.qualname
+            ctx.instance('C05.f', construct)
+            hits = list(falsy_zero_tests(fn))
+            ctx.obligation('C05.f', construct, not hits, {'optional_params_tested_by_truthiness': [h[1] for h in hits]})
+            for node, name in hits:
+                ctx.violation('C05.f', construct, 'parameter `%s` (Optional numeric/str) is tested by truthiness in `%s`: the legal value 0 '
+                              'is treated like None (e.g. simulate(0) runs every variation instead of variation 0)'
+                              % (name, norm(node.test if hasattr(node, 'test') else node)[:60]), fn.path, node.lineno, operand=name)
 
 
 def _check_variations(ctx: Ctx) -> None:
@@ -337,6 +386,8 @@ MUTANTS = [
     Mutant('enumerator-reverse-sort', PAR, 'SimulationParameters.get_unpacked_params_list',
            [('replace', 'sorted(self._unpacked_parameters_set)', 'sorted(self._unpacked_parameters_set, reverse=True)')],
            r'C05\.e:SimulationParameters\.get_unpacked_params_list'),
+    Mutant('variation-index-truthiness', RUNNER, 'SimulationRunner.simulate',
+           [('replace', 'if param_variation_index is None:', 'if not param_variation_index:')], r'C05\.f:SimulationRunner\.simulate'),
     Mutant('benign-gt-form', RUNNER, 'SimulationRunner._simulate_for_current_params_common',
            [('replace', 'current_rep < self.rep_max', 'self.rep_max > current_rep')], None, benign=True),
     Mutant('benign-rename-counter', RUNNER, 'SimulationRunner._simulate_for_current_params_common',
@@ -350,3 +401,13 @@ MUTANTS = [
 ENGINES = ['model', 'paths']
 TECHNIQUE = ('static analysis: structured forward abstract interpretation of the repetition loop with exception '
              'edges (balanced-counter, must-protect, comparison normalisation) + provider-agreement rules')
+
+
+def sweep(overlay):
+    from ..selftest import simple_statement, sweep_lines
+    out = []
+    for path, q in ((RUNNER, 'SimulationRunner._simulate_for_current_params_common'),
+                    (RUNNER, 'SimulationRunner._simulate_serially_all_param_variation'),
+                    (PAR, 'SimulationParameters.get_pack_indexes'), (PAR, 'SimulationParameters.get_unpacked_params_list')):
+        out += sweep_lines(overlay, path, q, simple_statement, 'C05')
+    return out
